@@ -43,6 +43,13 @@ import (
 
 var tok = insecuresecretdataaccess.Token{}
 
+// bufs holds the driver-owned REUSED input buffers (one backing array per argument role): every call overwrites
+// them with its inputs and scribbles over them afterwards; logged inputs come from the pristine arguments, outputs
+// are copied / projected after the scribble.
+var bufs = dpk.Arenas{}
+
+func cp(b []byte) []byte { return append([]byte{}, b...) }
+
 // dparams: abstract parameters of the key to derive. All fields are always logged (fixed record shape).
 type dparams struct {
 	Type    string `json:"type"` // AESGCM XCHACHA AESSIV HMAC HKDFPRF HMACPRF ED25519 AESGCMHKDF
@@ -131,7 +138,9 @@ func derivedParameters(d dparams) (key.Parameters, error) {
 		v := map[string]hmac.Variant{"TINK": hmac.VariantTink, "CRUNCHY": hmac.VariantCrunchy, "LEGACY": hmac.VariantLegacy, "NO_PREFIX": hmac.VariantNoPrefix}[d.Variant]
 		return hmac.NewParameters(hmac.ParametersOpts{KeySizeInBytes: d.KeySize, TagSizeInBytes: d.TagSize, HashType: hmacHash(d.Hash), Variant: v})
 	case "HKDFPRF":
-		return hkdfprf.NewParameters(d.KeySize, dpk.HKDFHash(d.Hash), vt.Unhex(d.Salt))
+		salt := vt.Unhex(d.Salt)
+		defer dpk.Scribble(salt) // the caller overwrites its salt buffer once the parameters exist
+		return hkdfprf.NewParameters(d.KeySize, dpk.HKDFHash(d.Hash), salt)
 	case "HMACPRF":
 		return hmacprf.NewParameters(d.KeySize, hmacprfHash(d.Hash))
 	case "ED25519":
@@ -385,8 +394,9 @@ func handlesEqual(a, b *keyset.Handle) bool {
 }
 
 type run struct {
-	w *vt.Writer
-	r *rand.Rand
+	w   *vt.Writer
+	r   *rand.Rand
+	seq int
 }
 
 // derive performs DeriveKeyset(salt) twice on a fresh deriver and logs the projection.
@@ -401,40 +411,75 @@ func (x *run) derive(ks []dentry, salt []byte, saltNil bool) (*keyset.Handle, []
 // deriveWith runs DeriveKeyset(salt) twice on deriver handle h, which ks describes.
 func (x *run) deriveWith(route string, h *keyset.Handle, ks []dentry, salt []byte, saltNil bool) (*keyset.Handle, []dkey) {
 	var d keyderivation.KeysetDeriver
-	var h1, h2 *keyset.Handle
-	var e0, e1, e2 error
-	s := salt
-	if saltNil {
-		s = nil
+	var h1, h2, h3, h4 *keyset.Handle
+	var e0, e1, e2, e3, e4 error
+	// one call = the salt placed in the REUSED salt buffer, DeriveKeyset, then the buffer scribbled over
+	call := func(s []byte) (*keyset.Handle, error) {
+		in := bufs.In("salt", s)
+		if saltNil {
+			in = nil
+		}
+		dh, err := d.DeriveKeyset(in)
+		bufs.ScribbleAll()
+		return dh, err
+	}
+	// a different salt of the SAME length for the same buffer (hits caches that compare with an uncopied slice)
+	x.seq++
+	follow := len(salt) > 0 && (!vt.Thorough() || x.seq%2 == 0)
+	other := cp(salt)
+	for i := range other {
+		other[i] ^= 0x5a + byte(i)
 	}
 	p, pv := vt.Try(func() {
 		d, e0 = keyderivation.New(h)
 		if e0 != nil {
 			return
 		}
-		h1, e1 = d.DeriveKeyset(s)
-		h2, e2 = d.DeriveKeyset(append([]byte{}, s...))
+		h1, e1 = call(salt)
+		h2, e2 = call(salt)
+		if follow && e1 == nil && e2 == nil {
+			h3, e3 = call(other) // same deriver, same buffer, other salt
+			h4, e4 = call(salt)  // and the first salt once more
+		}
 	})
-	e := vt.Ev{"ev": "derive", "route": route, "ks": ks, "salt": vt.Hex(salt), "saltnil": saltNil, "panic": p,
-		"ok": false, "out": []dkey{}, "out2": []dkey{}, "tinkEqual": false}
+	ev := func(kind string, s []byte) vt.Ev {
+		return vt.Ev{"ev": "derive", "route": route, "kind": kind, "ks": ks, "salt": vt.Hex(s), "saltnil": saltNil, "panic": p,
+			"ok": false, "out": []dkey{}, "out2": []dkey{}, "tinkEqual": false}
+	}
+	proj := func(dh *keyset.Handle) []dkey {
+		o, err := project(dh)
+		if err != nil {
+			vt.Fatal("cannot project derived handle: %v", err)
+		}
+		return o
+	}
+	e := ev("", salt)
 	if p {
 		e["panicVal"] = fmt.Sprint(pv)
 	}
 	var o1 []dkey
-	if !p && e0 == nil && e1 == nil && e2 == nil {
-		var o2 []dkey
-		var pe1, pe2 error
-		o1, pe1 = project(h1)
-		o2, pe2 = project(h2)
-		if pe1 != nil || pe2 != nil {
-			vt.Fatal("cannot project derived handle: %v %v", pe1, pe2)
-		}
-		e["ok"], e["out"], e["out2"], e["tinkEqual"] = true, o1, o2, handlesEqual(h1, h2)
+	good := !p && e0 == nil && e1 == nil && e2 == nil
+	if good {
+		o1 = proj(h1)
+		e["ok"], e["out"], e["out2"], e["tinkEqual"] = true, o1, proj(h2), handlesEqual(h1, h2)
 	} else if e0 != nil {
 		e["constructErr"] = true
 	}
 	x.w.Emit(e)
-	if e["ok"] == true {
+	if good && follow {
+		f := ev("reuse", other) // judged like any DeriveKeyset(other)
+		if e3 == nil {
+			o3 := proj(h3)
+			f["ok"], f["out"], f["out2"], f["tinkEqual"] = true, o3, o3, true
+		}
+		x.w.Emit(f)
+		g := ev("repeat", salt) // equal salts => Equal keysets, also across intervening calls
+		if e4 == nil {
+			g["ok"], g["out"], g["out2"], g["tinkEqual"] = true, proj(h4), o1, handlesEqual(h1, h4)
+		}
+		x.w.Emit(g)
+	}
+	if good {
 		return h1, o1
 	}
 	return nil, nil
@@ -485,7 +530,9 @@ func (x *run) use(ks []dentry, salt []byte, h *keyset.Handle, o []dkey) {
 			a, err = aead.New(h)
 			if err == nil {
 				e["constructed"] = true
-				ct, err = a.Encrypt(msg, ad)
+				ct, err = a.Encrypt(bufs.In("msg", msg), bufs.In("ad", ad))
+				bufs.ScribbleAll()
+				ct = cp(ct)
 			}
 		})
 		e["pt"], e["ad"], e["ct"], e["ok"], e["panic"] = vt.Hex(msg), vt.Hex(ad), vt.Hex(ct), err == nil && !p, p
@@ -503,7 +550,9 @@ func (x *run) use(ks []dentry, salt []byte, h *keyset.Handle, o []dkey) {
 				return
 			}
 			e["constructed"] = true
-			sig, err = s.Sign(msg)
+			sig, err = s.Sign(bufs.In("msg", msg))
+			bufs.ScribbleAll()
+			sig = cp(sig)
 			if err != nil {
 				return
 			}
@@ -517,7 +566,8 @@ func (x *run) use(ks []dentry, salt []byte, h *keyset.Handle, o []dkey) {
 				err = e3
 				return
 			}
-			verified = v.Verify(sig, msg) == nil
+			verified = v.Verify(bufs.In("sig", sig), bufs.In("msg", msg)) == nil
+			bufs.ScribbleAll()
 			pe, e4 := ph.Primary()
 			if e4 != nil {
 				err = e4
@@ -539,9 +589,12 @@ func (x *run) use(ks []dentry, salt []byte, h *keyset.Handle, o []dkey) {
 				return
 			}
 			e["constructed"] = true
-			tag, err = m.ComputeMAC(msg)
+			tag, err = m.ComputeMAC(bufs.In("msg", msg))
+			bufs.ScribbleAll()
+			tag = cp(tag)
 			if err == nil {
-				verified = m.VerifyMAC(tag, msg) == nil
+				verified = m.VerifyMAC(bufs.In("tag", tag), bufs.In("msg", msg)) == nil
+				bufs.ScribbleAll()
 			}
 		})
 		e["msg"], e["tag"], e["verified"], e["ok"], e["panic"] = vt.Hex(msg), vt.Hex(tag), verified, err == nil && !p, p
@@ -557,9 +610,13 @@ func (x *run) use(ks []dentry, salt []byte, h *keyset.Handle, o []dkey) {
 				return
 			}
 			e["constructed"] = true
-			ct, err = d.EncryptDeterministically(msg, ad)
+			ct, err = d.EncryptDeterministically(bufs.In("msg", msg), bufs.In("ad", ad))
+			bufs.ScribbleAll()
+			ct = cp(ct)
 			if err == nil {
-				pt2, err = d.DecryptDeterministically(ct, ad)
+				pt2, err = d.DecryptDeterministically(bufs.In("ct", ct), bufs.In("ad", ad))
+				bufs.ScribbleAll()
+				pt2 = cp(pt2)
 			}
 		})
 		e["pt"], e["ad"], e["ct"], e["pt2"], e["ok"], e["panic"] = vt.Hex(msg), vt.Hex(ad), vt.Hex(ct), vt.Hex(pt2), err == nil && !p, p
@@ -579,7 +636,9 @@ func (x *run) use(ks []dentry, salt []byte, h *keyset.Handle, o []dkey) {
 				return
 			}
 			e["constructed"] = true
-			out, err = s.ComputePrimaryPRF(msg, n)
+			out, err = s.ComputePrimaryPRF(bufs.In("msg", msg), n)
+			bufs.ScribbleAll()
+			out = cp(out)
 		})
 		e["input"], e["n"], e["out"], e["ok"], e["panic"] = vt.Hex(msg), int(n), vt.Hex(out), err == nil && !p, p
 		x.w.Emit(e)
@@ -595,17 +654,18 @@ func (x *run) use(ks []dentry, salt []byte, h *keyset.Handle, o []dkey) {
 			}
 			e["constructed"] = true
 			var buf bytes.Buffer
-			wr, e2 := s.NewEncryptingWriter(&buf, ad)
+			wr, e2 := s.NewEncryptingWriter(&buf, bufs.In("ad", ad))
 			if e2 != nil {
 				err = e2
 				return
 			}
-			if _, err = wr.Write(msg); err != nil {
+			if _, err = wr.Write(bufs.In("msg", msg)); err != nil {
 				return
 			}
 			if err = wr.Close(); err != nil {
 				return
 			}
+			bufs.ScribbleAll() // the stream is complete: the caller's buffers are overwritten
 			// an ordinary key of the same type built from the derived bytes must decrypt it
 			dp, e3 := derivedParameters(dparams{Type: "AESGCMHKDF", KeySize: prim.KeySize, Hash: prim.Hash, TagSize: prim.TagSize})
 			if e3 != nil {
@@ -627,12 +687,13 @@ func (x *run) use(ks []dentry, salt []byte, h *keyset.Handle, o []dkey) {
 				err = e6
 				return
 			}
-			rd, e7 := s2.NewDecryptingReader(bytes.NewReader(buf.Bytes()), ad)
+			rd, e7 := s2.NewDecryptingReader(bytes.NewReader(buf.Bytes()), bufs.In("ad", ad))
 			if e7 != nil {
 				err = e7
 				return
 			}
 			pt2, err = io.ReadAll(rd)
+			bufs.ScribbleAll()
 		})
 		e["pt"], e["pt2"], e["material"], e["ok"], e["panic"] = vt.Hex(msg), vt.Hex(pt2), prim.Material, err == nil && !p, p
 		if err != nil {
@@ -733,7 +794,7 @@ func salts(r *rand.Rand, i int, full bool) [][]byte {
 var shapesPath string
 
 func runAll(w *vt.Writer, full bool) {
-	x := &run{w, vt.Rng(17)}
+	x := &run{w: w, r: vt.Rng(17)}
 	r := x.r
 	ds := derivedConfigs(full)
 	seed := int(vt.Seed())
@@ -785,7 +846,7 @@ func runAll(w *vt.Writer, full bool) {
 	// 2. multi-key deriver keysets of one primitive family: statuses, primary position, ids
 	count := 200
 	if full {
-		count = 40000
+		count = 25000
 	}
 	byFam := map[string][]dparams{}
 	for _, d := range ds {
@@ -1015,7 +1076,10 @@ func (x *run) perKey(e dentry, salt []byte) {
 		vt.Fatal("deriver key: %v", err)
 	}
 	var dk key.Key
-	p, _ := vt.Try(func() { dk, err = verifhooks.PRFBasedDeriveKey(k, salt) })
+	p, _ := vt.Try(func() {
+		dk, err = verifhooks.PRFBasedDeriveKey(k, bufs.In("salt", salt))
+		bufs.ScribbleAll()
+	})
 	ev := vt.Ev{"ev": "derive", "route": "perkey", "ks": []dentry{e}, "salt": vt.Hex(salt), "saltnil": false, "panic": p,
 		"ok": false, "out": []dkey{}, "out2": []dkey{}, "tinkEqual": true}
 	if !p && err == nil {
@@ -1043,7 +1107,10 @@ func (x *run) mapRule(d dparams, stream []byte, id uint32) {
 		idReq = id
 	}
 	var k key.Key
-	p, _ := vt.Try(func() { k, err = keyderivation.VerifKeyderiversDeriveKey(dp, idReq, bytes.NewReader(stream)) })
+	p, _ := vt.Try(func() {
+		k, err = keyderivation.VerifKeyderiversDeriveKey(dp, idReq, bytes.NewReader(bufs.In("stream", stream)))
+		bufs.ScribbleAll()
+	})
 	e := vt.Ev{"ev": "maprule", "route": "hook", "d": d, "stream": vt.Hex(stream), "ok": err == nil && !p, "material": "", "panic": p}
 	if err == nil && !p {
 		o, perr := projectKey(k)
@@ -1060,10 +1127,12 @@ func (x *run) stream(hash string, k, salt, input []byte, reads []int) {
 	failed := false
 	asked := 0
 	p, _ := vt.Try(func() {
-		rd, err := keyderivation.VerifHKDFStreamingPRFCompute(hash, k, salt, input)
+		// the reader is consumed before the caller touches its buffers again (it is internal to one DeriveKey call)
+		rd, err := keyderivation.VerifHKDFStreamingPRFCompute(hash, bufs.In("skey", k), bufs.In("ssalt", salt), bufs.In("sinput", input))
 		if err != nil {
 			vt.Fatal("streaming PRF: %v", err)
 		}
+		defer bufs.ScribbleAll()
 		for _, n := range reads {
 			asked += n
 			buf := make([]byte, n)
@@ -1103,7 +1172,7 @@ func replay(path string, w *vt.Writer) {
 	if err := json.Unmarshal(obj.Event, &e); err != nil {
 		vt.Fatal("bad replay event: %v", err)
 	}
-	x := &run{w, vt.Rng(170)}
+	x := &run{w: w, r: vt.Rng(170)}
 	switch {
 	case e.Ev == "derive" && e.Route == "perkey":
 		x.perKey(e.Ks[0], vt.Unhex(e.Salt))
